@@ -31,7 +31,7 @@ ASSUMPTIONS = [
 def cases(draw, name, max_len):
     case = draw(base_case(name, max_len=max_len))
     for src in case["srcs"]:
-        src["fl"] = draw(st.sampled_from(["list", "iter", "agen"]))
+        src["fl"] = draw(st.sampled_from(["list", "iter", "agen", "list", "iter", "agen", "tuple", "tuplesub"]))
     for spec in case["fns"].values():
         spec["fl"] = draw(st.sampled_from(["def", "async"]))
     return case
@@ -42,7 +42,7 @@ def cases_large(draw, name):
     """inputs of 12-30 items: heap selection with real replacements, long runs of ties"""
     case = draw(base_case(name, max_len=30, min_len=12))
     for src in case["srcs"]:
-        src["fl"] = draw(st.sampled_from(["list", "iter", "agen"]))
+        src["fl"] = draw(st.sampled_from(["list", "iter", "agen", "list", "iter", "agen", "tuple", "tuplesub"]))
     for spec in case["fns"].values():
         spec["fl"] = draw(st.sampled_from(["def", "async"]))
     return case
@@ -77,8 +77,8 @@ def check(case):
         if fresh != now:
             raise Violation(f"C02/{tool}/mutated-{name}", f"before={fresh} after={now}")
     src = ba.srcs[0] if ba.srcs else None
-    if src is not None and case["srcs"][0]["fl"] == "list":
-        fresh, now = sig(mats(case["srcs"][0]["items"])), sig(src.obj)
+    if src is not None and case["srcs"][0]["fl"] in ("list", "tuple", "tuplesub"):
+        fresh, now = sig(mats(case["srcs"][0]["items"])), sig(list(src.obj))
         if fresh != now:
             raise Violation(f"C02/{tool}/mutated-input", f"before={fresh} after={now}")
     if src is not None and "default" in ba.V and "key" in ba.fns \
